@@ -159,7 +159,31 @@ fn c30_free(seed: u64) {
     }
 }
 
-const SCHEMA: &str = "type Query { me: User colors: [Color!]! node(id: ID!): Node } interface Node { id: ID! } type User implements Node { id: ID! name: String } enum Color { RED GREEN }";
+const SCHEMA: &str = "type Query {\n  me: User\n  colors: [Color!]!\n  node(id: ID!): Node\n}\ninterface Node {\n  id: ID!\n}\ntype User implements Node {\n  id: ID!\n  name: String\n}\nenum Color {\n  RED\n  GREEN\n}\n";
+
+/// line/column of every type name and object field of the shared schema: lookups on many
+/// different lines of one shared `SourceFile`
+fn line_cols(schema: &apollo_compiler::validation::Valid<Schema>, rounds: usize, phase: usize) -> String {
+    let mut s = String::new();
+    for r in 0..rounds {
+        for (i, (name, def)) in schema.types.iter().enumerate() {
+            if (i + r + phase) % 2 == 0 {
+                continue;
+            }
+            if let Some(range) = name.line_column_range(&schema.sources) {
+                s.push_str(&format!("{name} {}:{}..{}:{}\n", range.start.line, range.start.column, range.end.line, range.end.column));
+            }
+            if let apollo_compiler::schema::ExtendedType::Object(o) = def {
+                for (fname, f) in &o.fields {
+                    if let Some(range) = f.line_column_range(&schema.sources) {
+                        s.push_str(&format!("  {fname} {}:{}..{}:{}\n", range.start.line, range.start.column, range.end.line, range.end.column));
+                    }
+                }
+            }
+        }
+    }
+    s
+}
 const OPS: &[&str] = &[
     "query A { ...F } query B { ...F } fragment F on Query { x: me { id } x: colors y: node(id: 1) { id } y: node(id: 2) { id } }",
     "{ me { id nope } colors }",
@@ -193,20 +217,29 @@ fn c31_free(seed: u64) {
         handles.push(std::thread::spawn(move || {
             let mut ids = vec![FileId::new().__verif_raw()];
             let mut outs = vec![];
+            let lc = line_cols(&schema, 2, t);
             for k in 0..2 {
                 let i = (first + k + t) % OPS.len();
                 outs.push((i, exec_out(&schema, OPS[i])));
                 ids.push(FileId::new().__verif_raw());
             }
-            (ids, outs)
+            (ids, outs, lc, t)
         }));
     }
     let mut all_ids = vec![];
     let mut all_outs = vec![];
+    let mut all_lc = vec![];
     for h in handles {
-        let (ids, outs) = h.join().unwrap();
+        let (ids, outs, lc, t) = h.join().unwrap();
         all_ids.extend(ids);
         all_outs.extend(outs);
+        all_lc.push((t, lc));
+    }
+    for (t, lc) in all_lc {
+        let reference = line_cols(&schema, 2, t);
+        if reference != lc {
+            fail(format!("class=differs_from_sequential line/column lookups on the shared schema file, thread {t}: concurrent {lc:?} vs sequential {reference:?}"));
+        }
     }
     let mut sorted = all_ids.clone();
     sorted.sort();
